@@ -3037,6 +3037,7 @@ int vm_execute(vm * machine, program * prog, object * result)
     {
         *result =
             *gc_get_object(machine->collector, machine->stack[machine->sp].addr);
+        machine->sp--;
         return 0;
     }
 
